@@ -1055,3 +1055,6 @@ Example close_example :
   In (CClose 1) (new_calls (run (firstn 10 good_history)) (EResults [2])) /\
   lookup 1 (owner (run (firstn 10 good_history))) = Some 2.
 Proof. split; [vm_compute; left; reflexivity|reflexivity]. Qed.
+
+Lemma run_log_extends : forall h e, log (run (h ++ [e])) = log (run h) ++ new_calls (run h) e.
+Proof. intros h e. rewrite run_snoc. apply log_extends. apply run_inv. Qed.
